@@ -724,6 +724,148 @@ u_big(uint64_t idx, void *arg)
     vh_sig(0x17600000ull ^ idx);
 }
 
+/* ---- the library's own endpoints: buffer, chunk list, zero/empty/null ---- */
+static void
+u_lib(uint64_t idx, void *arg)
+{
+    (void)arg;
+    vh_rng r;
+    vh_unit_rng(&r, "lib", idx);
+    for (int rep = 0; rep < 300; rep++) {
+        vh_arena_reset();
+        VH_CASE4(idx, rep, 0, 0);
+        /* a chunk list with empty chunks, some of them already partly consumed */
+        ByteBuffer ch[6];
+        size_t nch = 1 + (size_t)vh_below(&r, 6), total = 0;
+        unsigned char expect[200];
+        for (size_t i = 0; i < nch; i++) {
+            size_t lead = (size_t)vh_below(&r, 3), part = vh_chance(&r, 1, 4) ? 0 : (size_t)vh_below(&r, 20);
+            size_t msz = lead + part ? lead + part : 1;
+            unsigned char *m = vh_arena(msz);
+            for (size_t k = 0; k < msz; k++)
+                m[k] = (unsigned char)vh_rand(&r);
+            byte_buffer_set(&ch[i], m, msz, lead + part, lead);
+            memcpy(expect + total, m + lead, part);
+            total += part;
+        }
+        ByteChunks bc = { .chunks = nch, .active = 0, .chunk = ch };
+        Source cs;
+        source_from_chunks(&cs, &bc);
+        /* destination: a buffer sink with a capacity around the total */
+        size_t cap = total + (size_t)vh_below(&r, 5) - (total >= 2 ? (size_t)vh_below(&r, 3) : 0);
+        if (cap == 0)
+            cap = 1;
+        unsigned char *dm = vh_arena(cap);
+        ByteBuffer db;
+        byte_buffer_space(&db, dm, cap);
+        Sink bs;
+        sink_to_buffer(&bs, &db);
+        int fun = (int)vh_below(&r, 6);
+        size_t N = 1 + (size_t)vh_below(&r, total + 3);
+        size_t auxsize = 1 + (size_t)vh_below(&r, 8);
+        unsigned char *auxm = vh_arena(auxsize);
+        ByteBuffer aux;
+        byte_buffer_space(&aux, auxm, auxsize);
+        ssize_t rc;
+        const char *fn;
+        size_t want; /* octets that should have reached the sink */
+        switch (fun) {
+        case 0: fn = "sts_n"; rc = sts_n(&cs, &bs, N); want = N; break;
+        case 1: fn = "sts_n_cbc"; rc = sts_n_cbc(&cs, &bs, N); want = N; break;
+        case 2: fn = "sts_n_aux"; rc = sts_n_aux(&cs, &bs, &aux, N); want = N; break;
+        case 3: fn = "sts_drain"; rc = sts_drain(&cs, &bs); want = total; break;
+        case 4: fn = "sts_drain_cbc"; rc = sts_drain_cbc(&cs, &bs); want = total; break;
+        default: fn = "sts_drain_aux"; rc = sts_drain_aux(&cs, &bs, &aux); want = total; break;
+        }
+        char key[96];
+        snprintf(key, sizeof key, "api=%s source=chunk-list sink=buffer", fn);
+        size_t possible = want < total ? want : total;
+        if (possible > cap)
+            possible = cap;
+        int complete = fun <= 2 && N <= total && N <= cap;
+        if (db.offset != 0 || db.used > cap || memcmp(dm, expect, db.used) != 0)
+            vh_fail("sink-not-prefix", key, "total=%zu cap=%zu N=%zu: buffer used=%zu holds %s expected prefix of %s", total, cap, N,
+                    db.used, vh_hex(dm, db.used), vh_hex(expect, total));
+        if (complete) {
+            VH_COUNT("library endpoints: counted transfer completed");
+            if (rc != (ssize_t)N || db.used != N)
+                vh_fail("count", key, "total=%zu cap=%zu N=%zu: rc=%zd sink has %zu", total, cap, N, rc, db.used);
+        } else {
+            VH_COUNT("library endpoints: source ended or sink filled up");
+            if (rc >= 0)
+                vh_fail("error-swallowed", key, "total=%zu cap=%zu N=%zu: rc=%zd sink has %zu", total, cap, N, rc, db.used);
+            /* everything up to the source's end, as far as the sink has room (per-octet variants fill it completely) */
+            if (fun != 2 && fun != 5 && fun != 0 && fun != 3 && db.used != possible)
+                vh_fail("not-everything-up-to-end", key, "total=%zu cap=%zu N=%zu: sink has %zu, possible %zu", total, cap, N,
+                        db.used, possible);
+            if ((fun == 2 || fun == 5) && total <= cap && db.used != (want < total ? want : total))
+                vh_fail("not-everything-up-to-end", key, "total=%zu cap=%zu N=%zu: sink has %zu", total, cap, N, db.used);
+        }
+    }
+    /* buffer source: exact and at-most reads */
+    for (int rep = 0; rep < 200; rep++) {
+        vh_arena_reset();
+        size_t R = 1 + (size_t)vh_below(&r, 30), lead = (size_t)vh_below(&r, 4);
+        unsigned char *m = vh_arena(lead + R);
+        for (size_t k = 0; k < lead + R; k++)
+            m[k] = (unsigned char)vh_rand(&r);
+        ByteBuffer b;
+        byte_buffer_set(&b, m, lead + R, lead + R, lead);
+        Source s;
+        source_from_buffer(&s, &b);
+        size_t N = 1 + (size_t)vh_below(&r, R + 3);
+        unsigned char *d = vh_arena(N);
+        VH_CASE4(idx, 1000 + rep, R, N);
+        if (rep & 1) {
+            ssize_t rc = source_get_chunk(&s, d, N);
+            if (N <= R) {
+                if (rc != (ssize_t)N || memcmp(d, m + lead, N) != 0 || b.offset != lead + N)
+                    vh_fail("count", "api=source_get_chunk source=buffer", "R=%zu N=%zu rc=%zd offset=%zu", R, N, rc, b.offset);
+            } else if (rc != -ENODATA) {
+                vh_fail("hard-error-not-returned", "api=source_get_chunk source=buffer", "R=%zu N=%zu rc=%zd", R, N, rc);
+            }
+        } else {
+            ssize_t rc = source_get_chunk_atmost(&s, d, N);
+            size_t k = N < R ? N : R;
+            if (rc != (ssize_t)k || memcmp(d, m + lead, k) != 0 || b.offset != lead + k)
+                vh_fail("atmost-count", "api=source_get_chunk_atmost source=buffer", "R=%zu N=%zu rc=%zd offset=%zu", R, N, rc,
+                        b.offset);
+        }
+        VH_COUNT("library endpoints: buffer source");
+    }
+    /* trivial endpoints */
+    {
+        vh_arena_reset();
+        unsigned char *d = vh_arena(40);
+        memset(d, 0x77, 40);
+        ssize_t rc = source_get_chunk(&source_zero, d, 40);
+        int z = 1;
+        for (int i = 0; i < 40; i++)
+            z &= d[i] == 0;
+        if (rc != 40 || !z)
+            vh_fail("count", "api=source_get_chunk source=zero", "rc=%zd", rc);
+        rc = source_get_chunk(&source_empty, d, 5);
+        if (rc != -ENODATA)
+            vh_fail("hard-error-not-returned", "api=source_get_chunk source=empty", "rc=%zd", rc);
+        rc = sink_put_chunk(&sink_null, d, 40);
+        if (rc != 40)
+            vh_fail("count", "api=sink_put_chunk sink=null", "rc=%zd", rc);
+        rc = sts_n(&source_zero, &sink_null, 1000);
+        if (rc != 1000)
+            vh_fail("count", "api=sts_n source=zero sink=null", "rc=%zd", rc);
+        rc = sts_drain(&source_empty, &sink_null);
+        if (rc >= 0)
+            vh_fail("drain-returns-success", "api=sts_drain source=empty", "rc=%zd", rc);
+        VH_COUNT("library endpoints: zero/empty/null");
+    }
+    *vh_ncases += 500;
+    vh_sig(0x17700000ull ^ idx);
+    if (idx == 0)
+        vh_sample("library endpoints", "chunk-list source (empty and partly consumed chunks) into a buffer sink with capacity around "
+                                       "the total, through sts_n, sts_n_cbc, sts_n_aux and the drains; buffer source exact/at-most; "
+                                       "source_zero, source_empty, sink_null");
+}
+
 void
 harness_run(void)
 {
@@ -744,13 +886,18 @@ harness_run(void)
         vh_unit("random", i, u_random, NULL);
     for (uint64_t i = 0; i < 8; i++)
         vh_unit("big", i, u_big, NULL);
+    for (uint64_t i = 0; i < (vh_tier ? 400u : 16u); i++)
+        vh_unit("lib", i, u_lib, NULL);
     static const char *req[] = { "exact get: completed", "exact get: hard error path", "exact put: completed",
                                  "exact put: hard error path", "at-most: count returned", "at-most: error returned",
                                  "invalid count refused", "plumbing single round: moved",
                                  "plumbing single round: driver error", "plumbing counted: completed",
                                  "plumbing counted: driver error", "plumbing counted: source ended early",
                                  "plumbing drain: reached the source's end", "plumbing drain: driver error",
-                                 "random long transfers", "large transfers (counts beyond 255 / 65535)", "scripts of length 5 enumerated (chunk driver)",
+                                 "random long transfers", "large transfers (counts beyond 255 / 65535)",
+                                 "library endpoints: counted transfer completed",
+                                 "library endpoints: source ended or sink filled up", "library endpoints: buffer source",
+                                 "library endpoints: zero/empty/null", "scripts of length 5 enumerated (chunk driver)",
                                  "scripts of length 5 enumerated (octet driver)" };
     for (size_t i = 0; i < sizeof req / sizeof req[0]; i++)
         vh_require(req[i]);
